@@ -98,6 +98,7 @@ def parseOp (op : String) (args : List Json) : Option Op :=
 
 structure St where
   w : W := {}
+  fixed : Bool := true     -- which `discard` the checked tree has (extracted from the source by the harness): patched / pinned
 
 def handle (s : St) (op : String) (args : List Json) : St × Json :=
   match op, args with
@@ -113,9 +114,10 @@ def handle (s : St) (op : String) (args : List Json) : St × Json :=
     -- a raw request of another client (the loopback tier's external writer / the fake server's own self-check)
     let (sv, resp) := serve s.w.sv (jreq m t r d)
     ({ s with w := { s.w with sv := sv } }, respJson resp)
-  | "discard_pinned", [h, sf, p] =>
-    -- the pinned tree's `discard` (before fixes/C16-discard-bookkeeping.patch); used to confirm the finding on an unpatched tree
-    let (w, o) := discardPinned { s.w with plan := jplan p, log := [] } (jnat h) (jbool sf)
+  | "variant", [v] => ({ s with fixed := jstr v != "pinned" }, Json.arr #["unit"])
+  | "discard", [h, sf, p] =>
+    -- `step` uses the patched `discard`; on a tree without fixes/C16-discard-bookkeeping.patch the pinned transcription runs
+    let (w, o) := discardG s.fixed { s.w with plan := jplan p, log := [] } (jnat h) (jbool sf)
     ({ s with w := w }, Json.arr #[outJson o, logJson w.log, viewJson w])
   | _, _ =>
     match parseOp op args with
